@@ -10,6 +10,9 @@ sys.path.insert(0, os.path.join(VERIF, "bin"))
 from propdefs import PROPS, NOT_CLAIMED, HOOK_COMMITS  # noqa: E402
 
 ids = [json.loads(l)["id"] for l in open(os.path.join(VERIF, "properties.jsonl"))]
+# only properties the integrator has validated end-to-end are claimed
+claimed = set(open(os.path.join(VERIF, "bin", "claimed.txt")).read().split())
+PROPS = {k: v for k, v in PROPS.items() if k in claimed}
 checks = []
 for pid in ids:
     if pid not in PROPS:
